@@ -14,10 +14,13 @@
            carrier one word set to each of WordVals at each of the first / last four word positions
      hdr   the 20-byte IPv4 header EncodeIP4 + SetPayload/AppendPayload must produce (checksum field zero)
            for ttl x protocol x payload length x address pair classes
-     echo4 the ICMPv4 echo message of Session.ICMP4SendEchoRequest (checksum field zero)
+     echo4 the ICMPv4 echo message of Session.ICMP4SendEchoRequest (checksum field zero), x the class of write failure
+           (`flt`) the first transmission attempt meets (none, ENOBUFS, EAGAIN, wrapped, temporary, permanent)
      echo6 IPv6 pseudo-header ++ ICMPv6 echo message of Session.ICMP6SendEchoRequest (checksum field zero)
      fold  strings constructed so that the unfolded sum needs exactly 0, 1 or 2 folding steps (FoldsNeeded), in the
            big-endian reading of the definition and in the little-endian reading of the library's accumulator
+     fold32 strings whose sum of 32-bit words (little- or big-endian) overflows 32 bits when the 64-bit accumulator is
+           folded: the fold classes one level up, for implementations that add wider words
      crit6 pseudo-header ++ ICMPv6 echo message with data lengths that give ICMPv6 lengths 198, 199, 255, 256, 454, 511,
            1000, 1400, whose echo id is solved (Sub1c) so that the total one's-complement sum is a prescribed critical
            value (tiny, negative zero, byte swaps): the totals on which an implementation that adds the pseudo-header
@@ -36,7 +39,7 @@ CONSTANTS RawMax,      \* 0..2
           AllPosUpTo,  \* lengths <= AllPosUpTo perturb every word position, longer ones the first / last four
           WideAcc,     \* FALSE: the library accumulates in a uint32 as written (Acc32 / WrapLemma); TRUE: repaired (64 bit)
           LongMode,    \* "none" | "quick" | "thorough": which long strings (family long) are enumerated
-          Families     \* subset of {"raw", "pat", "hdr", "echo4", "echo6", "pair6", "fold", "crit6", "long"}
+          Families     \* subset of {"raw", "pat", "hdr", "echo4", "echo6", "pair6", "fold", "fold32", "crit6", "long"}
 
 VARIABLE d
 
@@ -84,9 +87,13 @@ HdrSet == {[k |-> "hdr", n |-> pl, car |-> ttl, pos |-> pr, val |-> ap[1] * 16 +
              pl \in {0, 1, 7, 8, 23, 235, 236, 255, 256, 1479, 1480}, ttl \in {0, 1, 50, 64, 255},
              pr \in {0, 1, 6, 17, 58, 255}, ap \in V4Pairs}
 
-Echo4Set == {[k |-> "echo4", n |-> id, car |-> sq, pos |-> 0, val |-> 0] : id \in IdSeq, sq \in IdSeq}
-Echo6Set == {[k |-> "echo6", n |-> id, car |-> sq, pos |-> 0, val |-> ap[1] * 16 + ap[2]] :
-               id \in IdSeq, sq \in {1, 256, 65535}, ap \in V6Pairs}
+\* Write failures: the first attempt to transmit fails with the given class of error; whatever the send function does
+\* then (give up, try again), every frame that does reach the wire carries Stored(message) -- the expected bytes are a
+\* function of the message alone, not of earlier attempts.  0 = no failure.
+Faults == <<"", "ENOBUFS", "EAGAIN", "wrapped-ENOBUFS", "temporary", "permanent">>
+Echo4Set == {[k |-> "echo4", n |-> id, car |-> sq, pos |-> f, val |-> 0] : id \in IdSeq, sq \in IdSeq, f \in 0..5}
+Echo6Set == {[k |-> "echo6", n |-> id, car |-> sq, pos |-> f, val |-> ap[1] * 16 + ap[2]] :
+               id \in IdSeq, sq \in {1, 256, 65535}, ap \in V6Pairs, f \in 0..5}
 
 \* ---- fold classes.  nw = number of complete words, tail byte (odd n) = 0.
 \*   class 0: one word v, rest zero                                  (sum v < 2^16)
@@ -112,6 +119,16 @@ LongThorough == LongQuick \cup {<<65535, 4>>, <<65536, 4>>, <<65536, 1>>, <<1310
 LongSet == {[k |-> "long", n |-> x[1], car |-> x[2], pos |-> 0, val |-> 0] :
               x \in (IF LongMode = "quick" THEN LongQuick ELSE IF LongMode = "thorough" THEN LongThorough ELSE {})}
 
+\* ---- 32-bit-wide fold classes: k = n/4 - 1 words 0xffffffff and a last word w, 1 <= w <= k - 1 (k >= 2): the 64-bit sum is
+\* (k-1) 2^32 + (2^32 - k + w), so hi32 + lo32 = 2^32 - 1 + w overflows 32 bits.  pos = 0: little-endian words, 1: big-endian.
+Fold32Lens == {12, 16, 24, 64, 200, 1024, 1500}
+Fold32Set == {[k |-> "fold32", n |-> n, car |-> 2, pos |-> rd, val |-> v] : n \in Fold32Lens, rd \in 0..1, v \in 1..2}
+Fold32Bytes(x) ==
+  LET k  == x.n \div 4 - 1
+      w  == IF x.val = 1 THEN 1 ELSE k - 1
+      lw == IF x.pos = 0 THEN <<w % 256, w \div 256, 0, 0>> ELSE <<0, 0, w \div 256, w % 256>>
+  IN  [i \in 1..x.n |-> IF i <= 4 * k THEN 255 ELSE lw[i - 4 * k]]
+
 \* ---- critical totals of the ICMPv6 pseudo-header sum
 CritData == {190, 191, 247, 248, 446, 503, 992, 1392}
 CritTotals == {1, 2, 255, 256, 512, 32768, 65023, 65279, 65534, 65535}
@@ -124,6 +141,7 @@ Pair6Set == {[k |-> "pair6", n |-> id, car |-> 1, pos |-> pf, val |-> ap[1] * 16
                id \in {1, 4660, 65535}, pf \in 1..Len(PreFns), ap \in V6Pairs}
 
 Descriptors ==
+  (IF "fold32" \in Families THEN Fold32Set ELSE {}) \cup
   (IF "long" \in Families THEN LongSet ELSE {}) \cup
   (IF "fold" \in Families THEN FoldVecSet ELSE {}) \cup (IF "crit6" \in Families THEN Crit6Set ELSE {}) \cup
   (IF "pair6" \in Families THEN Pair6Set ELSE {}) \cup
@@ -169,6 +187,7 @@ Bytes(x) ==
     [] x.k \in {"pat", "long"} -> PatBytes(x)
     [] x.k = "hdr" -> HdrBytes(x)
     [] x.k = "fold" -> FoldBytes(x)
+    [] x.k = "fold32" -> Fold32Bytes(x)
     [] x.k = "crit6" -> CritBytes(x)
     [] x.k = "echo4" -> EchoMsg(8, x.n, x.car)
     [] x.k \in {"echo6", "pair6"} -> LET m == EchoMsg(128, x.n, x.car)
@@ -190,10 +209,12 @@ Lemmas ==
       \* the constructions deliver what they promise
       /\ d.k = "fold" => (IF d.pos = 0 THEN FoldsNeeded(USum(b)) ELSE FoldsNeeded(MechAcc(b))) = d.car
       /\ d.k = "crit6" => Sum(b) = d.car
+      /\ d.k = "fold32" => Fold32Carries(Acc64(b, IF d.pos = 0 THEN "le" ELSE "be"))
 
 Export ==
   LET b == Bytes(d) \o <<>>
   IN  PrintT(ToJson([k |-> d.k, b |-> b, e |-> Stored(b), pre |-> IF d.k = "pair6" THEN PreFns[d.pos] ELSE "",
+                         flt |-> IF d.k \in {"echo4", "echo6"} THEN Faults[d.pos + 1] ELSE "",
                          fb |-> IF d.k = "long" THEN -1 ELSE FoldsNeeded(USum(b)),
                          fm |-> IF d.k = "long" THEN -1 ELSE FoldsNeeded(MechAcc(b)),
                          w |-> IF d.k = "long" /\ ~WideAcc THEN Acc32(b).wraps ELSE 0]))
